@@ -230,7 +230,10 @@ func c12FillBGP(b *route.BGPPath, p kit.PolPath) {
 // c12FromPath takes a deep value snapshot of r.
 func c12FromPath(r *route.Path) kit.PolPath {
 	p := kit.PolPath{Type: r.Type, RedistributedFrom: r.RedistributedFrom, HiddenReason: r.HiddenReason, LTime: r.LTime}
-	if r.StaticPath != nil {
+	// A redistributed path (Type BGP, RedistributedFrom static) still drags the StaticPath of its origin along;
+	// that is not part of the advertised form (two static routes differing only in their next hop are advertised
+	// identically with next-hop-self), so it is only rendered for paths that ARE static paths.
+	if r.StaticPath != nil && r.Type == route.StaticPathType {
 		p.HasStatic = true
 		p.StaticNH = c12Bits(r.StaticPath.NextHop)
 	}
@@ -298,6 +301,8 @@ var c12KindName = []string{"ebgp", "ibgp", "ibgp-rr-client", "ebgp-rs-client"}
 type c12Session struct {
 	w    int // 32 / 128: address family of the session's RIBs
 	kind int
+	// addPath: 0 = best path only, N > 1 = add-path send with up to N paths per prefix
+	addPath int
 }
 
 func (s c12Session) peerAddr() kit.Bits {
@@ -384,6 +389,10 @@ func c12NewRig(s c12Session, imp, exp filter.Chain) *c12Rig {
 	if s.w == 128 {
 		f = fsm.ipv6Unicast
 		f.multiProtocol = true
+	}
+	if s.addPath > 0 {
+		// what openSentState.processAddPathCapability leaves behind when both sides agreed on add-path send
+		f.addPathTX = routingtable.ClientOptions{MaxPaths: uint(s.addPath)}
 	}
 	f.init()
 	// The update sender only turns Adj-RIB-Out changes into messages; its ticker
@@ -479,7 +488,7 @@ func c12Diff(a, b []string) string {
 
 // ---------------------------------------------------------------------------
 
-const c12Rule = "session (IPv4 or IPv6 family; eBGP / iBGP / iBGP RR client / eBGP RS client) with generated import and export policies from the C14 grammar; history = routes received from the peer (eligible announcements, prefixes related to the policies' patterns), LocRIB paths of other sources and static routes, withdrawals, and 1-3 policy replacements (import and/or export; new policy = one-parameter mutation of the current one, an independent policy, or a copy) through bgpServer.ReplaceImportFilterChain/ReplaceExportFilterChain, with more route changes between replacements. Rig B is a fresh session with the final policies and the same route history. Compared: LocRIB.Dump and AdjRIBOut.Dump as multisets of (prefix, path value) without path ids. Non-trivial: a replaced policy and its successor treat at least one route that is stored at replacement time differently."
+const c12Rule = "session (IPv4 or IPv6 family; eBGP / iBGP / iBGP RR client / eBGP RS client; best path only or add-path send 2..3, on best-only sessions some routes carry NO_EXPORT / NO_ADVERTISE) with generated import and export policies from the C14 grammar; history = routes received from the peer (eligible announcements, prefixes related to the policies' patterns), LocRIB paths of other sources and static routes, withdrawals, and 1-3 policy replacements (import and/or export; new policy = one-parameter mutation of the current one, an independent policy, or a copy) through bgpServer.ReplaceImportFilterChain/ReplaceExportFilterChain, with more route changes between replacements. Rig B is a fresh session with the final policies and the same route history. Compared: LocRIB.Dump and AdjRIBOut.Dump as multisets of (prefix, path value) without path ids. Non-trivial: a replaced policy and its successor treat at least one route that is stored at replacement time differently."
 
 type c12Plan struct {
 	sess   c12Session
@@ -519,7 +528,7 @@ func c12GenRecv(t *rapid.T, s c12Session, label string) kit.PolPath {
 
 func c12GenPlan(t *rapid.T) c12Plan {
 	var pl c12Plan
-	pl.sess = c12Session{w: kit.GenFamily(t), kind: rapid.IntRange(0, 3).Draw(t, "kind")}
+	pl.sess = c12Session{w: kit.GenFamily(t), kind: rapid.IntRange(0, 3).Draw(t, "kind"), addPath: rapid.SampledFrom([]int{0, 0, 0, 2, 3}).Draw(t, "addpath")}
 	g := kit.NewPolGen(t) // both families in the policies; routes are of the session's family
 	g.NH = []kit.Bits{pl.sess.otherAddr(50), pl.sess.otherAddr(51)}
 	addPol := func(c kit.PolChain, d string) int {
@@ -551,21 +560,44 @@ func c12GenPlan(t *rapid.T) c12Plan {
 		return out
 	}
 	var used []kit.Bits
-	genPfx := func(label string) kit.Bits {
+	// With add-path send, a path the propagation rules exclude (learned from this very peer, NO_EXPORT,
+	// NO_ADVERTISE) makes AdjRIBOut.AddPath withdraw the other advertised paths of its prefix (known finding
+	// C08/addpath-wipe-on-unexportable), which a later policy refresh undoes — the two rigs would then differ
+	// because of that finding, not because of the replacement. On add-path sessions prefixes received from the
+	// peer and prefixes of other sources are therefore kept disjoint and no well-known communities are used.
+	class := map[string]string{}
+	genPfxRaw := func(label string) kit.Bits {
 		if len(used) > 0 && rapid.IntRange(0, 3).Draw(t, label+"_again") == 0 {
 			return rapid.SampledFrom(used).Draw(t, label+"_pick")
 		}
 		for tries := 0; ; tries++ {
 			p := g.GenInputPrefix(t, pats(), label)
 			if p.W == pl.sess.w {
-				used = append(used, p)
 				return p
 			}
 			if tries > 4 {
-				p = kit.GenPrefix(t, pl.sess.w, label+"_f")
-				used = append(used, p)
-				return p
+				return kit.GenPrefix(t, pl.sess.w, label+"_f")
 			}
+		}
+	}
+	genPfxOK := func(label, cls string) (kit.Bits, bool) {
+		for tries := 0; tries < 6; tries++ {
+			p := genPfxRaw(fmt.Sprintf("%s_%d", label, tries))
+			if pl.sess.addPath > 0 {
+				if c, ok := class[p.Key()]; ok && c != cls {
+					continue
+				}
+				class[p.Key()] = cls
+			}
+			used = append(used, p)
+			return p, true
+		}
+		return kit.Bits{}, false
+	}
+	wellKnown := func(p *kit.PolPath, label string) {
+		if pl.sess.addPath == 0 && rapid.IntRange(0, 4).Draw(t, label+"_wk") == 0 {
+			p.HasCommunities = true
+			p.Communities = append(p.Communities, rapid.SampledFrom([]uint32{0xFFFFFF01, 0xFFFFFF02}).Draw(t, label+"_wkc")) // NO_EXPORT, NO_ADVERTISE
 		}
 	}
 	genRoutes := func(label string, n int) {
@@ -573,13 +605,22 @@ func c12GenPlan(t *rapid.T) c12Plan {
 			l := fmt.Sprintf("%s%d", label, i)
 			switch rapid.SampledFrom([]string{"recv", "recv", "recv", "recv", "other", "other", "static", "withdraw"}).Draw(t, l+"_op") {
 			case "recv":
-				pl.ops = append(pl.ops, c12Op{kind: "recv", pfx: genPfx(l), path: c12GenRecv(t, pl.sess, l)})
+				if pfx, ok := genPfxOK(l, "recv"); ok {
+					p := c12GenRecv(t, pl.sess, l)
+					wellKnown(&p, l)
+					pl.ops = append(pl.ops, c12Op{kind: "recv", pfx: pfx, path: p})
+				}
 			case "other":
 				p := kit.GenPolBGPPath(t, pl.sess.w, l)
 				p.OTC = 0
-				pl.ops = append(pl.ops, c12Op{kind: "other", pfx: genPfx(l), path: p, src: rapid.IntRange(0, 1).Draw(t, l+"_src")})
+				wellKnown(&p, l)
+				if pfx, ok := genPfxOK(l, "other"); ok {
+					pl.ops = append(pl.ops, c12Op{kind: "other", pfx: pfx, path: p, src: rapid.IntRange(0, 1).Draw(t, l+"_src")})
+				}
 			case "static":
-				pl.ops = append(pl.ops, c12Op{kind: "static", pfx: genPfx(l), path: kit.GenPolStaticPath(t, pl.sess.w, l)})
+				if pfx, ok := genPfxOK(l, "other"); ok {
+					pl.ops = append(pl.ops, c12Op{kind: "static", pfx: pfx, path: kit.GenPolStaticPath(t, pl.sess.w, l)})
+				}
 			case "withdraw":
 				if len(used) > 0 {
 					pl.ops = append(pl.ops, c12Op{kind: "withdraw", pfx: rapid.SampledFrom(used).Draw(t, l+"_wd")})
@@ -635,7 +676,8 @@ func c12Check(t *rapid.T, c *kit.Case, rec *kit.Recorder) {
 	for i, m := range pl.mpols {
 		pols[i] = b.chain(m)
 	}
-	c.Logf("session: family=%d kind=%s", pl.sess.w, c12KindName[pl.sess.kind])
+	c.Logf("session: family=%d kind=%s addpath-send=%d", pl.sess.w, c12KindName[pl.sess.kind], pl.sess.addPath)
+	c.ClassIf(pl.sess.addPath > 0, "addpath_send")
 	for i, m := range pl.mpols {
 		c.Logf("policy #%d (%s):\n%v", i, pl.descs[i], m)
 	}
